@@ -346,11 +346,17 @@ fn waker_scenario(prop: &str, bytes: &[u8], trace: bool) {
         }
     }
     if prop == "C12" {
-        let all: Vec<usize> = hids.iter().copied().chain(new_hids.iter().copied()).collect();
+        // every handler ever registered, fillers included (their Wakers are all dropped by the end;
+        // this covers the reserved first slot of each further bitmap)
+        let all: Vec<usize> = (0..next_hid).collect();
         for hid in all {
             let entries: Vec<&(usize, bool, usize)> = log.iter().filter(|e| e.0 == hid).collect();
             let ndel = entries.iter().filter(|e| e.1).count();
-            let last_drop_begin = recs.iter().filter(|r| r.kind == 1 && hid_of(r.w) == hid).map(|r| r.begin).max();
+            let last_drop_begin = recs
+                .iter()
+                .filter(|r| r.kind == 1 && (r.w >= 1000 || r.w < hids.len()) && hid_of(r.w) == hid)
+                .map(|r| r.begin)
+                .max();
             if ndel != 1 {
                 violation = Some(format!("handler {} received deleted=true {} time(s) although its Waker was dropped exactly once", hid, ndel));
             } else {
